@@ -403,10 +403,10 @@ enum cc_stat cc_deque_remove_at(CC_Deque *deque, size_t index, void **out)
                         &(deque->buffer[p + 1]),
                         (c - p) * sizeof(void*));
             }
-            if (p != 0) {
-                memmove(&(deque->buffer[1]),
-                        &(deque->buffer[0]),
-                        l * sizeof(void*));
+            if (l > 1) {
+                memmove(&(deque->buffer[0]),
+                        &(deque->buffer[1]),
+                        (l - 1) * sizeof(void*));
             }
             deque->buffer[c] = e;
         } else {
